@@ -55,6 +55,7 @@ type Config struct {
 	Sync                                                      bool // C05: run a synchronous phase after the async prefix
 	AsyncSteps                                                int
 	TwinGap, TwinHorizon                                      int
+	Hunt                                                      bool // C01: fork-hunting delivery policy after a danger state (see hunt.go)
 	Ghost                                                     bool // C06 tally mode: two real nodes, all other stake held by simulator-crafted voters
 }
 
@@ -91,6 +92,11 @@ type flight struct {
 	key  string
 	at   time.Duration // sync phase: delivery time (global)
 	craft bool
+	// decoded header (votes and bundles), used by the fork-hunting scheduler policy
+	hasHdr bool
+	vr     basics.Round
+	vp, vs uint64
+	vval   PValue
 }
 
 // Sim is one run.
@@ -133,6 +139,8 @@ type Sim struct {
 	maxPeriod map[basics.Round]uint64 // highest period seen in honest-originated votes per round
 	batchOwn  map[int][]UVote // own attest votes emitted in the reaction being collected
 	shadowSeq int
+	hunt        *hunt
+	huntSeen    map[string]*huntObs
 	ghostSent   map[string][]PValue // ghost account|r|p|step -> values already voted
 	ghostEqStake uint64
 	ghostEq     map[int]bool
@@ -299,6 +307,9 @@ func drawConfig(tp *kernel.Tape, prop, tier string) Config {
 	}
 	if c.Ghost {
 		c.WCrash, c.WTrig, c.MaxCrashes, c.WPart, c.WStarve = 0, 0, 0, 0, 0
+	}
+	if prop == "C01" {
+		c.Hunt = tp.Chance("cfg.hunt", 1, 2)
 	}
 	if prop == "C07" {
 		c.SlowFlush = false // a twin must be forked when the crash DB equals the in-memory state; delayed persistence breaks that premise
@@ -503,7 +514,7 @@ func (s *Sim) collect() {
 			key, dec := keys[i], decs[i]
 			s.log.Add("  n%d.%d emit %s bcast=%v ex=%d", n.id, in.inc, key, m.bcast, m.except)
 			s.onEmit(n, in, m, key, dec)
-			s.fanout(n, m, key)
+			s.fanout(n, m, key, dec)
 		}
 		for _, e := range ens {
 			s.log.Add("  n%d.%d ensure(%s) r%d %x", n.id, in.inc, e.kind, e.round, e.dig[:4])
@@ -558,7 +569,7 @@ func (s *Sim) collect() {
 	}
 }
 
-func (s *Sim) fanout(n *Node, m outMsg, key string) {
+func (s *Sim) fanout(n *Node, m outMsg, key string, dec any) {
 	for _, d := range s.nodes {
 		if d.id == n.id || d.id == m.except {
 			continue
@@ -573,6 +584,7 @@ func (s *Sim) fanout(n *Node, m outMsg, key string) {
 		}
 		s.nextID++
 		f := &flight{id: s.nextID, from: n.id, to: d.id, tag: m.tag, data: m.data, key: key}
+		setHdr(f, dec)
 		if s.syncMode {
 			f.at = s.global + s.drawDelay()
 		}
@@ -951,7 +963,7 @@ func (s *Sim) asyncStep() {
 	if len(pf) > 0 {
 		w[aFlush] = 60
 	}
-	if len(lag) > 0 {
+	if len(lag) > 0 && s.hunt == nil {
 		w[aSync] = c.WSync
 	}
 	spick := pickW(rSched, w)
@@ -969,6 +981,11 @@ func (s *Sim) asyncStep() {
 			}
 		}
 		f := s.removeFlight(del[k])
+		if !s.huntAllows(f) {
+			s.log.Add("hunt-drop m%d %d->%d %s", f.id, f.from, f.to, f.key)
+			s.stat("hunt_drop", 1)
+			break
+		}
 		s.deliver(f)
 	case aTimer:
 		s.fireTimer(tn[rA%len(tn)])
